@@ -156,7 +156,7 @@ class SymStr:
         p = to_plain(self)
         if p is not None:
             return repr(p)
-        raise Unsupported('repr() of a symbolic string')
+        raise Unsupported('repr() of a symbolic string reached C code')
 
     def __contains__(self, item):
         return bool(sx_in(item, self))
@@ -442,6 +442,37 @@ def decdigits(term, nd):
 REPR_STUB = None
 
 
+def sym_repr(a):
+    """repr() of a (partly) symbolic str: characters that repr() shows as themselves stay symbolic; any other
+    character is concretised (exhaustive forking over small domains, sampling otherwise) and escaped by repr() itself"""
+    ex = core.cur()
+    out = [39]
+    quote_seen = False
+    for ch in a.c:
+        if isinstance(ch, int):
+            v = ch
+        elif bool(mkbool(z3.And(ch >= 32, ch <= 126, ch != 39, ch != 92))):
+            out.append(ch)
+            continue
+        else:
+            v = ex.concretize(ch, HASH_CONC_LIMIT)
+        r = repr(chr(v))[1:-1]
+        if chr(v) == "'":
+            r = "\\'"
+        out.extend(ord(x) for x in r)
+    out.append(39)
+    return mks(out)
+
+
+def sym_obj_str(a, r=False):
+    """str()/repr() of a list/tuple/dict that may hold symbolic strings"""
+    if isinstance(a, SymStr):
+        return sym_repr(a) if (r or True) else a
+    if isinstance(a, list):
+        return sx_join(', ', [sym_obj_str(x, True) for x in a]).__radd__('[').__add__(']') if any(isinstance(x, SymStr) for x in a) else repr(a)
+    return repr(a) if r else str(a)
+
+
 def hz_obj(a):
     """an object of a class defined in hszinc (its __str__/__repr__ are instrumented Python code that may
     return symbolic text, which C-level str()/repr()/% would reject)"""
@@ -462,7 +493,7 @@ def obj_repr(a):
 
 def sx_mod(l, r):
     args = r if isinstance(r, tuple) else (r,)
-    if not (has_sym(l) or any(has_sym(a) or hz_obj(a) or (isinstance(a, BaseException) and any(isinstance(x, SymStr) for x in a.args)) for a in args)):
+    if not (has_sym(l) or any(has_sym(a) or hz_obj(a) or (isinstance(a, list) and any(isinstance(x, SymStr) for x in a)) or (isinstance(a, BaseException) and any(isinstance(x, SymStr) for x in a.args)) for a in args)):
         return l % r
     if isinstance(l, SymStr):
         p = to_plain(l)
@@ -488,7 +519,9 @@ def sx_mod(l, r):
         a = args[ai]
         ai += 1
         flags, width, prec = m.group('flags'), int(m.group('width') or 0), m.group('prec')
-        if conv == 's' and isinstance(a, BaseException) and len(a.args) == 1 and isinstance(a.args[0], SymStr):
+        if conv in 'sr' and isinstance(a, list) and any(isinstance(x, SymStr) for x in a):
+            piece = chars_of(sym_obj_str(a))
+        elif conv == 's' and isinstance(a, BaseException) and len(a.args) == 1 and isinstance(a.args[0], SymStr):
             piece = list(a.args[0].c)          # str(exception) is str(args[0])
         elif conv in 'sr' and hz_obj(a):
             piece = chars_of(obj_str(a) if conv == 's' else obj_repr(a))
@@ -509,10 +542,7 @@ def sx_mod(l, r):
             if isinstance(a, SymStr):
                 # message stub: quote + raw characters + quote (escapes inside repr() are not modelled; hszinc uses
                 # %r of text only in exception/log messages, and code generation from repr is handled by a separate stub)
-                if REPR_STUB is not None:
-                    piece = chars_of(REPR_STUB(a))
-                else:
-                    piece = [39] + list(a.c) + [39]
+                piece = chars_of(sym_repr(a))
             else:
                 piece = [ord(c) for c in repr(a)]
         elif conv in 'xX' and isinstance(a, SymInt):
